@@ -1,0 +1,39 @@
+package e2e
+
+import (
+	"testing"
+
+	streamsql "github.com/rulego/streamsql"
+	"github.com/stretchr/testify/assert"
+	"github.com/stretchr/testify/require"
+)
+
+// NOT without parentheses negates the comparison that follows it, in WHERE and in
+// HAVING: NOT v < 2 is NOT (v < 2).
+func TestNot_CoversTheFollowingComparison(t *testing.T) {
+	kept := func(where string) []any {
+		ssql := streamsql.New()
+		require.NoError(t, ssql.Execute("SELECT v FROM stream WHERE "+where), where)
+		defer ssql.Stop()
+		var vs []any
+		for _, v := range []int{1, 2, 3} {
+			r, err := ssql.EmitSync(map[string]any{"k": "b", "v": v})
+			require.NoError(t, err, where)
+			if r != nil {
+				vs = append(vs, r["v"])
+			}
+		}
+		return vs
+	}
+	assert.Equal(t, []any{2, 3}, kept("NOT v < 2"))
+	assert.Equal(t, []any{2, 3}, kept("not v < 2"))
+	assert.Equal(t, []any{2}, kept("v > 0 AND NOT v < 2 AND v < 3"))
+	assert.Equal(t, []any{1, 2, 3}, kept("NOT v < 2 OR v = 1"))
+	assert.Equal(t, []any{1}, kept("NOT NOT v < 2"))
+	assert.Equal(t, []any{3}, kept("NOT abs(v - 3) > 0"))
+
+	const head = "SELECT k, count(*) AS c FROM stream GROUP BY k, CountingWindow(3) HAVING "
+	assert.Len(t, runHavingNot(t, head+"NOT count(*) < 2"), 1)
+	assert.Len(t, runHavingNot(t, head+"c = 3 AND NOT sum(v) < 6 AND NOT c < 2"), 1)
+	assert.Empty(t, runHavingNot(t, head+"NOT count(*) > 2"))
+}
